@@ -109,7 +109,30 @@ ZERO_RES_LEAVES = [
 ]
 
 
+GRID_SCALES = (0.1, 0.01, 0.3, 0.7, 0.001, 0.07)
+
+
+def scaled_grid_types():
+    """scaled types whose limits are -n*scale .. n*scale for EVERY n of a range and several scales no double represents
+    exactly, so that the float quotient limit/scale falls below, on and above the integer n (every rounding direction);
+    top level for all n, nested in array / tuple / struct for n <= 8"""
+    nmax = 100 if deep() else 30
+    res = []
+    for sc in GRID_SCALES:
+        # the limit as the product n * scale and as the short decimal a programmer writes (0.3 rather than 3 * 0.1)
+        leaves = [('scaled', sc, -lim, lim) for n in range(1, nmax + 1)
+                  for lim in sorted({n * sc, float(f'{n * sc:.12g}')})]
+        res += leaves
+        res += [('array', t, 0, 2) for t in leaves[:8]]
+        res += [('tuple', (leaves[2], leaves[5])), ('struct', (('a', leaves[6]), ('b', leaves[3])), ('b',))]
+    return res
+
+
 def ext_types():
+    return _ext_types() + scaled_grid_types()
+
+
+def _ext_types():
     a, b, c, d, e = EXT_LEAVES
     p, z = PRECISE_LEAVES, ZERO_RES_LEAVES
     return EXT_LEAVES + [
@@ -802,6 +825,7 @@ def run(ctx):
     shards = [types[i::n] for i in range(n)]
     ctx.pmap(shard_fn, [s for s in shards if s], name='roundtrip')
     ctx.rule = ('enumeration: every type of the catalogue (all leaf kinds with boundary limits, containers to depth 3, plus 38 '
+                '(+ the scaled limit-grid family: 6 scales x every n) '
                 'types carrying unit / fmtstr / resolution properties (incl. resolutions of exactly 0), scales and limits that need '
                 'more than 6 significant digits, and 10 integer types with limits / values beyond 2^53) x '
                 '{node datatype, client datatype rebuilt from the JSON datainfo} x every valid candidate of the spec-derived '
